@@ -53,7 +53,7 @@ def main():
             frs = "(round 1)"
         files = ", ".join(os.path.basename(x) if x.count("/") < 3 else "/".join(x.split("/")[-2:]) for x in d.get("files_changed", []))
         out.append(f"| {name} | {d['property']} | {esc(files)} | {short(d.get('what_breaks', ''), 260)} | {short(d.get('needs_to_manifest', ''), 160)} | {cb} | {frs} |")
-    out += ["", f"{total} seeded changes; {own} are caught by the check of the property they were written for." + (f" Round 2: {first_caught} of {first_total} were caught by the checks as they stood before the change was seen." if first_total else ""), ""]
+    out += ["", f"{total} seeded changes; {own} are caught by the check of the property they were written for." + (f" Rounds 2, 3 and 5 together: {first_caught} of {first_total} produced a VIOLATION on the checks as they stood before the change was seen (for round 5 a first-run alarm was often about the refactoring rather than the slip, see 8.5)." if first_total else ""), ""]
     unc = [os.path.basename(os.path.dirname(m)) for m in sorted(glob.glob(os.path.join(V, "seeded", "*", "meta.json"))) if not json.load(open(m)).get("caught_by")]
     if unc:
         out += ["Not caught by any check (kept in the corpus, reason in their `meta.json` `note`): " + ", ".join(unc), ""]
